@@ -203,10 +203,11 @@ Fixpoint updl {A} (l : list A) (i : nat) (f : A -> A) : list A :=
 (* CancelToken::register *)
 Definition register (t : tok) (i : key) (k : kst) (tl : list tokst) : kst * list tokst :=
   match nth_error tl t with
-  | None => (k, tl)
+  | None => (k, tl)          (* tokens are created before the futures that name them *)
   | Some ts =>
-    if fired ts then (cancel_by_token k, tl)
-    else (k, updl tl t (add_reg i))
+    let k1 := set_reg true k in
+    if fired ts then (cancel_by_token k1, tl)
+    else (k1, updl tl t (add_reg i))
   end.
 
 (* Proactor::pop *)
@@ -230,7 +231,7 @@ Definition submit_poll (e : ext) (eager : option kres) (i : key) (k : kst) (tl :
       let k1 := set_infl true (set_sub SSubmitted (set_ext e k)) in
       let (k2, tl2) :=
         match e_tok e with
-        | Some t => register t i (set_reg true k1) tl
+        | Some t => register t i k1 tl
         | None => (k1, tl)
         end in
       let (k3, r) := pop k2 in (k3, tl2, r)
